@@ -31,6 +31,12 @@ theorem C17_url_string (base tmpl : Str) (ts : List Tok) (ps ps' : List (Str × 
   rw [← hr]
   exact C17_url base ts ps ps' hc hp hnd hperm
 
+/-- the side condition "well-formed template" is exactly "`tokenize` succeeds": every well-formed token list
+    is recovered from its rendering, so `C17_url_string` covers every template made of literal text
+    (without `{`) and `{name}` placeholders (brace-free names), with any number of placeholders -/
+theorem C17_template_wellformed (ts : List Tok) (hc : Clean ts) : tokenize (render ts) = some ts :=
+  tokenize_complete ts hc
+
 /-- non-vacuity: a two-placeholder template, a value equal to another key's name, both orders -/
 example : replacePathParams "http://h".toList "u/{id}/n/{name}".toList
       [("name".toList, .str "id".toList), ("id".toList, .int 7)] = "http://h/u/7/n/id".toList ∧
